@@ -70,6 +70,39 @@ def run_case(shape, v, mode, backend, version, out, expect="ok"):
     return None, text
 
 
+def cross_uint_case(tgt, src, v, backend, version, out):
+    cnt, oc = out["counters"], out["outcomes"]
+
+    def body():
+        s = abi_gen.spec(src).new_instance()
+        t = abi_gen.spec(tgt).new_instance()
+        return pt.Seq(s.set(v), t.set(s), pt.Log(t.encode()))
+    try:
+        if backend == "main":
+            expr = pt.Seq(body(), pt.Int(1))
+        else:
+            def cross_in_sub():
+                return body()
+            expr = pt.Seq(pt.Subroutine(pt.TealType.none)(cross_in_sub)(), pt.Int(1))
+        text = rb.compile_cfg(expr, rb.Cfg(version, "A"))
+    except drive.PT_ERRORS:
+        oc["cross:refused"] = oc.get("cross:refused", 0) + 1
+        return None, None
+    except Exception as e:
+        return "build/compile crashed: %r" % (e,), None
+    res = interp.run(asm.assemble(text), interp.Ctx(mode="A", group=[interp.default_txn()]), fuel=20000)
+    cnt["traces_validated"] = cnt.get("traces_validated", 0) + 1
+    oc["cross:" + res.verdict] = oc.get("cross:" + res.verdict, 0) + 1
+    fits = v < (1 << abi_gen.BITS[tgt])
+    if res.verdict == "APPROVE":
+        if not fits:
+            return "a value that does not fit the target width was approved, logs %r" % ([l.hex() for l in res.logs],), text
+        want = abi_gen.encode(tgt, v)
+        if res.logs != [want]:
+            return "encodes to %r, reference %s" % ([l.hex() for l in res.logs], want.hex()), text
+    return None, text
+
+
 def _worker(items, base):
     out = {"counters": {}, "outcomes": {}, "violations": [], "samples": []}
     cnt = out["counters"]
@@ -101,6 +134,22 @@ def _worker(items, base):
                                 "driver": "range", "size": 0, "title": "%s value %d (%s, %s, v%d): %s" % (shape, over, mode, backend, ver, why),
                                 "shape": shape, "value": over, "mode": mode, "backend": backend, "version": ver, "expect": expect,
                                 "teal": text, "features": {"why": "range", "mode": mode}})
+        # a uint assembled from ANOTHER ABI uint of every width: either refused when built, or - if the program
+        # approves - exactly the reference encoding; a value that does not fit must never be approved
+        if isinstance(shape, str) and shape in abi_gen.BITS:
+            tb = abi_gen.BITS[shape]
+            for src in abi_gen.BITS:
+                sb = abi_gen.BITS[src]
+                for v in sorted(set([0, 1, (1 << tb) - 1, min(1 << tb, (1 << sb) - 1), (1 << sb) - 1])):
+                    for backend in ("main", "sub"):
+                        for ver in _VERSIONS:
+                            why, text = cross_uint_case(shape, src, v, backend, ver, out)
+                            if why:
+                                out["violations"].append({
+                                    "driver": "cross-uint", "size": 0,
+                                    "title": "%s.set(<%s holding %d>) (%s, v%d): %s" % (shape, src, v, backend, ver, why),
+                                    "shape": shape, "src": src, "value": v, "backend": backend, "version": ver, "teal": text,
+                                    "features": {"why": "cross-width set", "fits": v < (1 << tb)}})
         cnt["states"] = cnt.get("states", 0) + 1
         cnt["transitions"] = cnt.get("transitions", 0) + len(vals)
     if items and base % 53 == 0:
